@@ -15,6 +15,18 @@ import (
 // reset). No value by s1 + D + tolerance is a lost expiry. The early direction is load independent.
 const c18Tolerance = 2 * time.Second
 
+// Lateness below the hard tolerance is judged by repetition: scheduling noise does not repeat, a
+// wrongly computed deadline does.  A blocking read that returns more than c18Soft after the model's
+// deadline makes the sequence suspect; it is a violation only if three more executions of the same
+// sequence are all later than c18Soft at the same operation (under a load average of 64 on 16 cores
+// one wait in ~900 was more than 50 ms late).
+const c18Soft = 35 * time.Millisecond
+
+type c18suspect struct {
+	op   int
+	late time.Duration
+}
+
 type c18op struct {
 	Kind string
 	D    time.Duration
@@ -51,7 +63,7 @@ func genC18ops() *rapid.Generator[[]c18op] {
 	return rapid.SliceOfN(op, 3, 14)
 }
 
-func c18Run(ops []c18op) (viol, key string, classes map[string]int) {
+func c18Run(ops []c18op) (viol, key string, classes map[string]int, susp *c18suspect) {
 	classes = map[string]int{}
 	tm := timer.New()
 	var (
@@ -92,7 +104,7 @@ func c18Run(ops []c18op) (viol, key string, classes map[string]int) {
 				case <-tm.C():
 					consumed = true
 				default:
-					return fmt.Sprintf("op %d: Reset with zero duration did not make an expiry available immediately", i), "zero-not-immediate", classes
+					return fmt.Sprintf("op %d: Reset with zero duration did not make an expiry available immediately", i), "zero-not-immediate", classes, nil
 				}
 				classes["zero_reset"]++
 			}
@@ -129,12 +141,12 @@ func c18Run(ops []c18op) (viol, key string, classes map[string]int) {
 			case <-tm.C():
 				now := time.Now()
 				if m, k := check(now, fmt.Sprintf("op %d: non-blocking read", i)); m != "" {
-					return m, k, classes
+					return m, k, classes, nil
 				}
 				consumed = true
 			default:
 				if have && !consumed && !ambiguous && time.Now().After(s1.Add(D).Add(c18Tolerance)) {
-					return fmt.Sprintf("op %d: no expiry %s after the deadline", i, time.Since(s1.Add(D))), "lost-expiry", classes
+					return fmt.Sprintf("op %d: no expiry %s after the deadline", i, time.Since(s1.Add(D))), "lost-expiry", classes, nil
 				}
 			}
 			_ = unread
@@ -143,27 +155,52 @@ func c18Run(ops []c18op) (viol, key string, classes map[string]int) {
 				continue
 			}
 			deadline := s1.Add(D)
+			due := deadline // the instant from which a delivery is owed: the deadline, or now if it has passed already
+			if n := time.Now(); n.After(due) {
+				due = n
+			}
 			wait := time.Until(deadline) + c18Tolerance
 			select {
 			case <-tm.C():
 				now := time.Now()
 				if m, k := check(now, fmt.Sprintf("op %d: blocking read", i)); m != "" {
-					return m, k, classes
+					return m, k, classes, nil
 				}
 				if late := now.Sub(deadline); late > 50*time.Millisecond {
 					classes["late_over_50ms"]++
 				}
+				if late := now.Sub(due); late > c18Soft && susp == nil {
+					susp = &c18suspect{op: i, late: late}
+				}
 				consumed = true
 				classes["waited"]++
 			case <-time.After(wait):
-				return fmt.Sprintf("op %d: no expiry within %s after the deadline (D=%s)", i, c18Tolerance, D), "lost-expiry", classes
+				return fmt.Sprintf("op %d: no expiry within %s after the deadline (D=%s)", i, c18Tolerance, D), "lost-expiry", classes, nil
 			}
 		}
 		if have && (tm.Height() != h || tm.View() != v) {
-			return fmt.Sprintf("op %d: timer reports (%d,%d), latest reset was (%d,%d)", i, tm.Height(), tm.View(), h, v), "wrong-epoch", classes
+			return fmt.Sprintf("op %d: timer reports (%d,%d), latest reset was (%d,%d)", i, tm.Height(), tm.View(), h, v), "wrong-epoch", classes, nil
 		}
 	}
-	return "", "", classes
+	return "", "", classes, susp
+}
+
+// c18Judge runs a sequence and confirms a suspected late expiry by repetition.
+func c18Judge(ops []c18op) (string, string, map[string]int) {
+	msg, key, cl, susp := c18Run(ops)
+	if msg != "" || susp == nil {
+		return msg, key, cl
+	}
+	cl["late_suspects"]++
+	least := susp.late
+	for k := 0; k < 3; k++ {
+		m2, _, _, s2 := c18Run(ops)
+		if m2 != "" || s2 == nil || s2.op != susp.op {
+			return "", "", cl // did not repeat
+		}
+		least = min(least, s2.late)
+	}
+	return fmt.Sprintf("op %d: blocking read returned at least %s after latest reset + duration + extensions in each of 4 executions of the sequence (scheduling noise does not repeat)", susp.op, least), "late-expiry", cl
 }
 
 func TestC18(t *testing.T) {
@@ -172,7 +209,7 @@ func TestC18(t *testing.T) {
 	defer e.Flush()
 	rapid.Check(t, func(rt *rapid.T) {
 		ops := genC18ops().Draw(rt, "ops")
-		msg, key, cl := c18Run(ops)
+		msg, key, cl := c18Judge(ops)
 		desc := fmt.Sprintf("%v", ops)
 		if msg != "" {
 			e.Violation(key, msg, "ops="+desc)
